@@ -52,6 +52,8 @@ KEY_F11_GS = "dmrg:ground_state:complex_hermitian_mpo:conjugate_state"
 KEY_NORM = "dmrg2:normalisation:max_bond_below_phys_dim:truncating_final_update"
 KEY_NORM_EN = "dmrg2:reported_energy:max_bond_below_phys_dim:truncating_final_update"
 KEY_L2 = "dmrg2:raised:two_site_chain:leftward_sweep"
+CUTOFF_MODES = ["sum2", "rsum2", "sum1", "rsum1", "rel", "abs"]
+CMODE_COQ = {"abs": "CAbs", "rel": "CRel", "sum2": "CSum2", "rsum2": "CRsum2", "sum1": "CSum1", "rsum1": "CRsum1"}
 KEY_POS = "dmrg1:total_energy:positive_ground_energy:uncanonized_sweep_after_bond_expansion"
 KEY_NOISE = "dmrg1:total_energy:expansion_noise_ge_1e-5:uncanonized_sweep_after_bond_expansion"
 
@@ -637,7 +639,7 @@ def rand_opts(rng, bsz):
     if bsz == 2 and rng.random() < 0.4:
         o["bond_compress_method"] = rng.choice(["svd", "eig", "svds"])
     if bsz == 2 and rng.random() < 0.4:
-        o["bond_compress_cutoff_mode"] = rng.choice(["sum2", "rel", "abs", "rsum2"])
+        o["bond_compress_cutoff_mode"] = rng.choice(CUTOFF_MODES)
     if bsz == 1 and rng.random() < 0.4:
         o["bond_expand_rand_strength"] = rng.choice([1e-8, 1e-6, 1e-4])
     if rng.random() < 0.15:
@@ -725,6 +727,7 @@ def oracle_run(ctx, col, spec, n):
         real_sweep = dm.sweep
         real_update = dm._update_local_state
         upd = []
+        norms = []
 
         def sweep_spy(direction, canonize=True, **kw):
             before = bonds_of(dm._k)
@@ -739,6 +742,7 @@ def oracle_run(ctx, col, spec, n):
             b0 = bonds_of(dm._k)
             r = real_update(i, **kw)
             upd.append((i, b0, bonds_of(dm._k)))
+            norms.append((len(log), i, float(abs(dm._k.H @ dm._k))))
             return r
 
         dm.sweep = sweep_spy
@@ -770,16 +774,26 @@ def oracle_run(ctx, col, spec, n):
     # 1. the two conventions (library apply vs plain dense algebra) must agree
     if abs(E_lib - E_dense) > tol:
         ctx.violation("convention:apply_vs_dense", "psi.H @ H.apply(psi) differs from dense <psi|H|psi>", {**desc, **res})
-    # 2. the state is normalised
+    # 2. the state is normalised - after the run and after EVERY local update (total_energies entries are energies of it)
     caps_ = [int(s_["max_bond"]) for s_ in log]
     trunc_final = bsz == 2 and caps_[-1] < d  # the last split of the sweep (chain end, full rank d) is truncated
-    unnorm = abs(nrm - 1) > (1e-6 if loose else 1e-8)
+    cmode = opts.get("bond_compress_cutoff_mode", "sum2")
+    ntol = 1e-6 if loose else 1e-8
+    unnorm = abs(nrm - 1) > ntol
+    KEY_NORM = f"dmrg2:normalisation:cutoff_mode={cmode}:truncating_final_update"
+    KEY_NORM_EN = f"dmrg2:reported_energy:cutoff_mode={cmode}:truncating_final_update"
     if unnorm:
         if trunc_final:
-            ctx.violation(KEY_NORM, "DMRG2 with max_bond < phys_dim: the last 2-site update of the sweep truncates and the returned "
-                          "state is left unnormalised", {**desc, **res})
+            ctx.violation(KEY_NORM, f"DMRG2 (cutoff_mode={cmode}) with max_bond < phys_dim: the last 2-site update of the sweep truncates "
+                          "and the returned state is left unnormalised", {**desc, **res})
         else:
             ctx.violation(f"dmrg{bsz}:normalisation", "returned state is not normalised", {**desc, **res})
+    for (sw_, i_, n2_) in norms:
+        if abs(n2_ - 1) > ntol:
+            ctx.violation(f"dmrg{bsz}:normalisation:after_local_update" + (f":cutoff_mode={cmode}" if bsz == 2 else ""),
+                          "the state is not normalised after a local update (so the total energy recorded for it is not a Rayleigh quotient)",
+                          {**desc, **res, "sweep": sw_, "site": i_, "norm2": n2_})
+            break
     # 3. reported energy = energy of the returned state
     if abs(E_rep - E_lib) > tol:
         if unnorm and trunc_final and abs(E_rep - E_lib * nrm) <= tol:
@@ -925,6 +939,41 @@ def oracle_run(ctx, col, spec, n):
     col.add({**desc, "check": "reported energy"}, f"Z.eqb (reported_energy {tes}) {codes[E_rep]}%Z", sweep_fail)
 
 
+def truncation_modes_stream(ctx, col):
+    """every cutoff mode x the truncating-final-update family (max_bond < phys_dim: spin-1 with bond 2, spin-1/2 with bond 1;
+    and a cutoff large enough to discard weight at the chain end), rightward and alternating sweeps"""
+    import quimb.tensor.decomp as dec
+
+    rng = ctx.rng
+    # tie of Model.renorm_lookup: what `renorm=True` means for each mode inside the split
+    for mode in CUTOFF_MODES:
+        _, o = dec.parse_split_opts("svd", "right", 2, 1e-10, mode, True)
+        col.add({"kind": "renorm_table", "check": "renorm table", "mode": mode, "observed": int(o["renorm"])},
+                f"Nat.eqb (renorm_lookup {CMODE_COQ[mode]}) {int(o['renorm'])} && Nat.eqb (cmode_code {CMODE_COQ[mode]}) {int(o['cutoff_mode'])}",
+                sweep_fail)
+        ctx.count(("renorm_table", mode), True)
+    fams = [(3, 3, [2], 1e-12), (2, 4, [1], 1e-12), (3, 4, [2, 2], [1e-6, 1e-12]), (2, 5, [4], 3e-2)]
+    k = 0
+    for mode in CUTOFF_MODES:
+        picks = fams if not ctx.quick else [fams[0], fams[1 + (CUTOFF_MODES.index(mode) % 3)]]
+        seen = set()
+        for (d, L, bds, cut) in picks:
+            seq = ["R", "RL", "L", "LR"][k % 4]
+            k += 1
+            if (d, L, seq) in seen:
+                continue
+            seen.add((d, L, seq))
+            spec = {"d": d, "L": L, "family": rng.choice(["spinham", "float"]), "ham_complex": rng.random() < 0.5, "bsz": 2,
+                    "bond_dims": bds, "cutoffs": cut, "sweep_sequence": seq, "p0": "rand", "max_sweeps": rng.randint(2, 4),
+                    "seed": rng.getrandbits(24), "opts": {"bond_compress_cutoff_mode": mode}}
+            ctx.bump(f"truncation_family:{mode}")
+            oracle_run(ctx, col, spec, 10**5 + k)
+            # model: the 2-site update leaves a normalised state for this mode (observed: norms checked in oracle_run)
+    for mode in CUTOFF_MODES:
+        col.add({"kind": "renorm_table", "check": "renorm table", "mode": mode},
+                f"dmrg2_normalised_after_truncation {CMODE_COQ[mode]}", sweep_fail)
+
+
 def oracle_stream(ctx, col):
     rng = ctx.rng
     N = ctx.n(26, 300)
@@ -940,7 +989,8 @@ def oracle_stream(ctx, col):
 
 
 SWEEP_KEYS = {"schedule": "dmrg:schedule", "canonize": "dmrg:canonize_flag", "solve1 bonds": "dmrg1:bond_dimensions", "pre_canon bonds": "dmrg2:canonize_bonds",
-              "split_bond": "dmrg2:bond_cap:update", "reported energy": "dmrg:energies_bookkeeping"}
+              "split_bond": "dmrg2:bond_cap:update", "reported energy": "dmrg:energies_bookkeeping",
+              "renorm table": "split:renorm_lookup"}
 
 
 def sweep_fail(ctx, dsc):
@@ -1051,7 +1101,7 @@ def run(ctx):
     import time
 
     col = Collector()
-    for fn in (corpus_stream, observe_stack, align_stream, exact_stream, oracle_stream, flush, exact_post, periodic_stream):
+    for fn in (corpus_stream, observe_stack, align_stream, exact_stream, truncation_modes_stream, oracle_stream, flush, exact_post, periodic_stream):
         t = time.time()
         if fn is periodic_stream:
             ctx.stage(fn)
